@@ -172,6 +172,7 @@ var implOps = map[string]func(h caseHead, raw []byte) map[string]any{
 	"c13":  implC13,
 	"report": implReport,
 	"c14":    implC14,
+	"c08":    func(h caseHead, raw []byte) map[string]any { return implC08(h, raw) },
 }
 
 func runImpl(in io.Reader, out io.Writer) {
@@ -594,5 +595,31 @@ func implC14(h caseHead, raw []byte) map[string]any {
 		}
 	}
 	res["sameWithoutMaps"] = same
+	return res
+}
+
+// c08: is the profile rejected at compile time because of a denied built-in?
+func implC08(h caseHead, raw []byte) (res map[string]any) {
+	res = map[string]any{}
+	defer func() {
+		if r := recover(); r != nil {
+			res["outcome"] = "panic"
+			res["err"] = fmt.Sprint(r)
+		}
+	}()
+	_, err := pkg.CompileProfile(h.Profile, false, nil)
+	if err == nil {
+		res["outcome"] = "accepted"
+		res["unsafeRejected"] = false
+		return res
+	}
+	msg := err.Error()
+	res["outcome"] = "rejected"
+	res["unsafeRejected"] = strings.Contains(msg, "unsafe built-in function calls")
+	res["err"] = firstLine(msg)
+	if len(msg) > 300 {
+		msg = msg[:300]
+	}
+	res["errFull"] = msg
 	return res
 }
